@@ -508,3 +508,95 @@ def model_eval(progs, what):
                                                 coq_list([coq_val(v) for v in p["vals"]]), t))
     res = vlib.coq_eval(IMPORTS, "Open Scope string_scope.", exprs, tag="cmp")
     return [r.strip().strip('"') for r in res]
+
+
+# ------------------------------------------------------------------ the differential run shared by C01/C02/C09/C12
+
+TRUSTED_COMPILER = [
+    "Coq 8.16.1 kernel (coqc, full .vo); vm_compute only in Examples/refutation witnesses and Gen obligations",
+    "axioms: none (Print Assumptions: Closed under the global context)",
+    "the Python-fragment semantics coq/Compiler/PySem.v (hand-written from the language reference: evaluation order, "
+    "short-circuit BoolOp, try/except/else/finally with the finally outcome overriding, while/else/break/continue) is "
+    "modelled, not verified; it is compared with CPython 3.12 on the real compiled code of every generated program of every run",
+    "the reference semantics coq/Compiler/HySem.v is written from docs/api.rst and docs/semantics.rst, not from the compiler",
+    "the compiler model coq/Compiler/Compile.v is hand-written; it is compared with hy_compile at AST level "
+    "(canonical dump, temporaries by exact name) on every generated program of every run",
+    "translator/compiler_tables.py (and/or defaults, get_anon_var format) regenerated on every run",
+    "exception classes are referred to by name and handler types are class names (no statements in handler types); "
+    "user variables hold None/bool/int/exception classes; unbound-name errors are not modelled (stores are total)",
+]
+
+
+def make_progs(rng, n, forms, depth_lo=1, depth_hi=4, gen=None):
+    g = gen or Gen(rng, forms)
+    progs = []
+    for _ in range(n):
+        g.k = 0
+        g.loopvar = 0
+        e = g.expr(rng.randrange(depth_lo, depth_hi + 1))
+        progs.append(dress(rng, e))
+    return progs
+
+
+def dress(rng, e, fault_p=0.5):
+    pts = log_points(e)
+    fault = {}
+    if pts and rng.random() < fault_p:
+        for k in rng.sample(pts, min(len(pts), rng.choice([1, 1, 2]))):
+            fault[k] = rng.randrange(CLASSES)
+    nv = nvars_of(e)
+    vals = [rng.choice([("int", 0), ("int", 5), ("bool", True), ("bool", False), ("none",)]) for _ in range(nv)]
+    return {"e": e, "fault": fault, "vals": vals, "nv": nv}
+
+
+def differential(chk, progs, judge=None):
+    """Runs every program through: the model compiler (Coq), the real compiler; PySem (Coq) and CPython on
+    the compiled code; the reference semantics (Coq).  Records correspondence disagreements and oracle
+    failures (reference vs real behaviour).  `judge(p, src, impl, ref)` may veto/rename a failure key."""
+    mods = model_eval(progs, "compile")
+    runs = model_eval(progs, "run")
+    refs = model_eval(progs, "ref")
+    for p, m, r, f in zip(progs, mods, runs, refs):
+        src = to_hy(p["e"])
+        p["src"] = src
+        for k, n in kinds(p["e"]).items():
+            chk.count("form:" + k, n)
+        chk.count("size:%d" % min(40, (size(p["e"]) // 5) * 5))
+        chk.count("faults:%d" % len(p["fault"]))
+        c = impl_compile(src)
+        how = ("PYTHONPATH=%s python: hy.eval(hy.read_many(%r)) with log(k,v) appending k and raising per fault table %r, "
+               "u0.. = %r" % (vlib.REPO, src, p["fault"], [hy_val(v) for v in p["vals"]]))
+        inp = {"program": src, "fault": {str(k): cls_name(c_) for k, c_ in p["fault"].items()},
+               "initial": [hy_val(v) for v in p["vals"]]}
+        if c[0] != "OK":
+            chk.case(src, nontrivial=False)
+            chk.fail("compile-error", inp, c[1], "compiles", how)
+            continue
+        try:
+            d = impl_dump(c[1], c[2])
+        except Unmodelled as ex:
+            chk.case(src, nontrivial=False)
+            chk.disagree("compiled AST outside the modelled target fragment", src, m, str(ex))
+            continue
+        if d != m:
+            chk.disagree("Compiler.Compile.compile vs hy_compile (AST)", src, m, d)
+        ir = impl_run(c[1], c[2], p["fault"], p["vals"], p["nv"])
+        out = ir.split(" ")[0]
+        chk.count("outcome:" + out)
+        nontrivial = size(p["e"]) >= 4
+        chk.case(src, nontrivial=nontrivial,
+                 sample={"program": src, "fault": inp["fault"], "result": ir} if chk.evaluations % 97 == 5 else None)
+        if out in ("TIMEOUT", "PYSYNTAX", "OTHER"):
+            chk.count("skipped:" + out)
+            if out != "TIMEOUT":
+                chk.fail("compiled-code-" + out.lower(), inp, ir, f, how)
+            continue
+        if ir != r and out != "NAMEERROR":
+            chk.disagree("Compiler.PySem vs CPython on the compiled code", src, r, ir)
+        if ir != f:
+            key = "behaviour-differs"
+            p["impl"], p["ref"] = ir, f
+            if judge is not None:
+                key = judge(p, src, ir, f)
+            if key is not None:
+                chk.fail(key, dict(inp, expr=p["e"]), ir, f, how)
